@@ -366,7 +366,7 @@ def handle (line : String) : String :=
     match r.1 with
     | none => s!"none explored={r.2}"
     | some p => s!"witness explored={r.2} labels=" ++ ",".intercalate p
-  | ["plan", n, edges, inPorts, hasOut, selfFed, targets] =>
+  | ["plan", n, edges, inPorts, hasOut, selfFed, paramPorts, targets] =>
     let es := (if edges.isEmpty then [] else edges.splitOn ",").filterMap fun e =>
       match e.splitOn ":" with
       | [a, b, c] => match a.toNat?, b.toNat?, c.toNat? with | some a, some b, some c => some (a, b, c) | _, _, _ => none
@@ -375,7 +375,11 @@ def handle (line : String) : String :=
       match e.splitOn ":" with
       | [a, b] => match a.toNat?, b.toNat? with | some a, some b => some (a, b) | _, _ => none
       | _ => none
-    let wf : Graph.Wf := { n := n.toNat!, edges := es, inPorts := parseNats inPorts, hasOut := (parseNats hasOut).map (· != 0), selfFed := sf }
+    let pp := (if paramPorts.isEmpty then [] else paramPorts.splitOn ",").filterMap fun e =>
+      match e.splitOn ":" with
+      | [a, b] => match a.toNat?, b.toNat? with | some a, some b => some (a, b) | _, _ => none
+      | _ => none
+    let wf : Graph.Wf := { n := n.toNat!, edges := es, inPorts := parseNats inPorts, hasOut := (parseNats hasOut).map (· != 0), selfFed := sf, paramPorts := pp }
     let ts := if targets == "-" then none else some (parseNats targets)
     match Graph.plan runSem wf ts with
     | .refused => "refused"
@@ -383,7 +387,7 @@ def handle (line : String) : String :=
     | .started gs d b =>
       let g := (gs.toArray.qsort (· < ·)).toList
       s!"started gs={",".intercalate (g.map toString)} driver={match d with | some x => toString x | none => "sink"} sink={b}"
-  | ["run.sem"] => s!"skipSelf={runSem.skipSelf};driverRemovedFromArg={runSem.driverRemovedFromArg};singleProcKept={runSem.singleProcKept};driverReadyChecked={runSem.driverReadyChecked};sinkWaited={runSem.sinkWaited};readyBeforeStart={runSem.readyBeforeStart}"
+  | ["run.sem"] => s!"skipSelf={runSem.skipSelf};driverRemovedFromArg={runSem.driverRemovedFromArg};singleProcKept={runSem.singleProcKept};driverReadyChecked={runSem.driverReadyChecked};sinkWaited={runSem.sinkWaited};readyBeforeStart={runSem.readyBeforeStart};mergesFile={runSem.mergesFile};mergesParam={runSem.mergesParam}"
   | ["chan.search", b, streams] =>
     let ss := (if streams.isEmpty then [] else streams.splitOn ";").map parseNats
     let r := ChanSearch.explore b.toNat! ss (Chan.init ss) []
